@@ -422,6 +422,8 @@ def scenarios():
     # a `?` in an exclude pattern must match ONE character, also a non-ASCII one
     out.append({"src": {"n/keep.txt": ("k", T), "n/draft-1.txt": ("1", T), "n/draft-\u00e9.txt": ("e", T)}, "dst": {"n/draft-\u00fc.txt": ("u", T), "n/stale.txt": ("s", T)},
                 "delete": True, "excludes": ["draft-?.txt"], "glob": True})
+    # a file that differs in SIZE only (same whole-second mtime): delivered, and the delivered file carries the source's mtime
+    out.append({"src": {"d/grown.txt": ("the new, longer content", T - 7)}, "dst": {"d/grown.txt": ("old", T - 7)}, "delete": False})
     out.append({"src": {}, "dst": dst, "delete": True})
     out.append({"src": {}, "dst": dst, "delete": False})
     out.append({"src": {"n": ("1", T)}, "dst": {}, "delete": False})
